@@ -1,7 +1,7 @@
 (** Top-level statements about Parse: the machine started by p.parse on a reset state returns what
     the reference semantics says, for every memo / inline setting the generator can choose. *)
 From PegV Require Import Base.Tac Base.ListX Spec.Syntax Spec.Peg Model.Machine Model.Runtime Model.Analyses Model.Gen
-  Proofs.PegFacts Proofs.Sim Proofs.AsuSound Proofs.Forest.
+  Spec.Tokens Proofs.PegFacts Proofs.Sim Proofs.AsuSound Proofs.Forest Proofs.RuntimeProofs.
 
 Definition good_grammar (g : grammar) : Prop := forall r b, nth_error g r = Some (RBody b) -> expr_ok b = true.
 Definition good_buf (buf : list rune) : Prop := forall c, In c buf -> c <> endSymbol.
@@ -204,6 +204,33 @@ Proof.
     cbn [parse_spec] in P. destruct P as (st'' & R' & P1 & Pb & _).
     assert (st'' = st') by (unfold machine in R; congruence). subst st''.
     exists true, st'. split; [exact R|]. split; [|discriminate]. intros _. split; [lia|exact F].
+Qed.
+
+(** C04: Execute() on the recorded tokens runs the actions of the derivation, in order, each with the
+    most recently completed capture *)
+Lemma c04_execute memo inline n r st0 p f evs :
+  slot_ok inline r -> peg_parse g ptx buf penv n r = Some (Succ p f, evs) ->
+  exists st', machine memo inline n r st0 = Some (Ret true st') /\
+    execute g ptx (live st') (0, 0) = fst (trace_forest g ptx f (0, 0)).
+Proof.
+  intros Hs H. destruct (c03_tokens memo inline n r st0 p f evs Hs H) as (st' & kids & R & L & _).
+  exists st'. split; [exact R|]. rewrite L. apply execute_is_trace.
+Qed.
+
+(** C05: AST() is the derivation tree without its empty nodes, children in input order *)
+Lemma c05_ast memo inline n r st0 p f evs :
+  slot_ok inline r -> peg_parse g ptx buf penv n r = Some (Succ p f, evs) ->
+  exists st' kids, machine memo inline n r st0 = Some (Ret true st') /\ f = [Node r 0 p kids] /\
+    ast (live st') = (if 0 =? p then None else Some (Rose (r, (0, p)) (prune_forest kids))) /\
+    print_tree (live st') = (if 0 =? p then [] else preorder 0 (Rose (r, (0, p)) (prune_forest kids))).
+Proof.
+  intros Hs H. destruct (c03_tokens memo inline n r st0 p f evs Hs H) as (st' & kids & R & L & Hf & _).
+  exists st', kids. split; [exact R|]. split; [exact Hf|].
+  unfold peg_parse in H.
+  destruct (ev_ok g ptx buf penv n (EName r) 0 _ (Nat.le_0_l _) H) as [_ [W _]]. cbn [fst] in W.
+  assert (A : ast (live st') = (if 0 =? p then None else Some (Rose (r, (0, p)) (prune_forest kids)))).
+  { rewrite L, Hf. apply ast_of_parse. rewrite <- Hf. exact W. }
+  split; [exact A|]. unfold print_tree. rewrite A. destruct (0 =? p); reflexivity.
 Qed.
 
 End Corollaries.
